@@ -158,7 +158,7 @@ class EndpointServer(Community):
         intro_peer = random.choice(intro_peers) if intro_peers else None
 
         packet = self.create_introduction_response(
-            payload.destination_address, peer.address, payload.identifier,
+            payload.source_lan_address, peer.address, payload.identifier,
             introduction=intro_peer, prefix=prefix)
         self.endpoint.send(peer.address, packet)
 
